@@ -9,6 +9,7 @@ from common import case_line, parse_result
 from gen import bound_text, sides, wellformed_bound, pick_side
 
 LEVEL = "proof"
+BIG_IO = lambda a: "--json" in a        # which command lines of cases.rand_cli the large-input stream keeps
 SPECIALS = ['"', "\\", "\x00", "\x01", "\x08", "\x0c", "\r", "\t", "\x1f", "\x7f", " ", "😎", "a", "é", "\n"]
 
 
